@@ -129,7 +129,7 @@ def main(argv):
         except (ParseError, LexError) as e:
             rows.append({"file": rel, "fn": "*", "class": "unparsed", "by": str(e)})
             continue
-        table_gens = sorted(g for g in reads.get(rel, ()) if g and not g.endswith("Fn"))
+        table_gens = sorted(g for g in reads.get(rel, ()) if g and not g.endswith("Fn") and not g.startswith("Shape_"))
         for fn, (tgt, tr), test in walk_fns(items):
             if test:
                 continue
